@@ -220,6 +220,34 @@ def check_truthy_position(ctx, fi, rule='R-IDIOM/truthy-position'):
     cfg = cfg_of(fi)
     rd = rd_of(fi)
 
+    def holds_positions(table):
+        """every keyed store into the table puts a counter of
+        `enumerate` (a column / row number) there"""
+        stores = [st for st in ast.walk(fi.node)
+                  if isinstance(st, ast.Assign) and len(st.targets) == 1
+                  and isinstance(st.targets[0], ast.Subscript)
+                  and isinstance(st.targets[0].value, ast.Name)
+                  and st.targets[0].value.id == table]
+        if not stores:
+            return False
+        for st in stores:
+            if not isinstance(st.value, ast.Name):
+                return False
+            ok = False
+            for lp in ast.walk(fi.node):
+                if isinstance(lp, ast.For) and isinstance(
+                        lp.iter, ast.Call) and isinstance(
+                            lp.iter.func, ast.Name) \
+                        and lp.iter.func.id == 'enumerate' \
+                        and isinstance(lp.target, ast.Tuple) \
+                        and isinstance(lp.target.elts[0], ast.Name) \
+                        and lp.target.elts[0].id == st.value.id \
+                        and any(x is st for x in ast.walk(lp)):
+                    ok = True
+            if not ok:
+                return False
+        return True
+
     def is_position(name_node, nid):
         ds = rd.reaching(name_node.id, nid)
         if not ds:
@@ -229,9 +257,16 @@ def check_truthy_position(ctx, fi, rule='R-IDIOM/truthy-position'):
             if d.kind != 'assign' or v is None or d.path:
                 return False
             if not (isinstance(v, ast.Call) and isinstance(
-                    v.func, ast.Attribute)
-                    and v.func.attr in _POSITION_CALLS):
+                    v.func, ast.Attribute)):
                 return False
+            if v.func.attr in _POSITION_CALLS:
+                continue
+            # table.get(k) of a table of positions (None when absent)
+            if v.func.attr == 'get' and len(v.args) == 1 and isinstance(
+                    v.func.value, ast.Name) and holds_positions(
+                        v.func.value.id):
+                continue
+            return False
         return True
 
     n = 0
@@ -530,4 +565,38 @@ def check_sentinel_codes_gather(ctx, fi, rule='R-IDIOM/sentinel-code-gather'):
                    f'`{unparse(s)[:60]}` gathers by pandas category codes '
                    'without treating the code -1 (missing value): every '
                    'missing label becomes the last category')
+    return n
+
+
+def check_falsy_numeric_default(ctx, fi, rule='R-IDIOM/falsy-numeric-default'):
+    """`value or 5` replaces a missing value by a default -- and a value
+    of 0 as well.  The run's numeric settings have 0 among their legal
+    values (no runners-up, seed 0, no minimum), so a numeric setting is
+    defaulted under an `is None` test, never with `or <number>`."""
+    n = 0
+    for e in ast.walk(fi.node):
+        if not (isinstance(e, ast.BoolOp) and isinstance(e.op, ast.Or)
+                and len(e.values) >= 2):
+            continue
+        last = e.values[-1]
+        if not (isinstance(last, ast.Constant) and isinstance(
+                last.value, (int, float)) and not isinstance(
+                    last.value, bool) and last.value != 0):
+            continue
+        first = e.values[0]
+        if isinstance(first, (ast.Compare, ast.BoolOp)) or (
+                isinstance(first, ast.UnaryOp)
+                and isinstance(first.op, ast.Not)):
+            continue
+        # used as a value (assigned, passed on), not as a test
+        p_ = getattr(e, '_parent', None)
+        if isinstance(p_, (ast.If, ast.While, ast.IfExp)) and getattr(
+                p_, 'test', None) is e:
+            continue
+        n += 1
+        ctx.touch(fi)
+        ctx.fail(rule, f'{fi.qual}:or#{n - 1}', fi.loc(e),
+                 f'`{unparse(e)[:60]}` falls back on {last.value} whenever '
+                 f'`{unparse(first)[:40]}` is falsy: a requested value of 0 '
+                 'is silently replaced as well')
     return n
